@@ -2,6 +2,7 @@ package main
 
 import (
 	"fmt"
+	"go/types"
 	"os"
 	"path/filepath"
 	"strings"
@@ -56,10 +57,12 @@ func fxFunc(P *Program, name string) *ssa.Function {
 				for _, recv := range []interface{ String() string }{t.Type()} {
 					_ = recv
 				}
-				ms := P.SSA.MethodSets.MethodSet(t.Type())
-				for i := 0; i < ms.Len(); i++ {
-					if f := P.SSA.MethodValue(ms.At(i)); f != nil && f.Name() == name {
-						return f
+				for _, recvT := range []types.Type{t.Type(), types.NewPointer(t.Type())} {
+					ms := P.SSA.MethodSets.MethodSet(recvT)
+					for i := 0; i < ms.Len(); i++ {
+						if f := P.SSA.MethodValue(ms.At(i)); f != nil && f.Name() == name && f.Synthetic == "" {
+							return f
+						}
 					}
 				}
 			}
@@ -90,6 +93,8 @@ func runFixtures(names []string) (fails []string) {
 		"table":      fxTable,
 		"lockleak":   fxLockLeak,
 		"strshape":   fxStrShape,
+		"typednil":   fxTypedNil,
+		"lockcycle":  fxLockCycle,
 	}
 	if names == nil {
 		for n := range all {
@@ -396,6 +401,58 @@ func fxStrShape(P *Program) (fails []string) {
 	}
 	if _, ok := strKinds(retVal(last(fs[4]), 0), classify, 3); ok {
 		fails = append(fails, "joinConditional (a conditional write) is read as a fixed sequence")
+	}
+	return
+}
+
+func fxTypedNil(P *Program) (fails []string) {
+	fs, e := need(P, "providerBad", "providerGood")
+	if e != nil {
+		return e
+	}
+	for i, f := range fs {
+		c := newCtx("FX", "quick", P)
+		checkNoTypedNil(c, "typed-nil", []*ssa.Function{f}, "gatecheckfx")
+		bad := 0
+		for _, o := range c.Obl {
+			if o.Verdict != "holds" {
+				bad++
+			}
+		}
+		if i == 0 && bad == 0 {
+			fails = append(fails, "providerBad (returns wrap(n), a possibly-nil *T, as an interface) is not reported")
+		}
+		if i == 1 && bad != 0 {
+			fails = append(fails, "providerGood (nil-checked before the conversion) is reported")
+		}
+	}
+	return
+}
+
+func fxLockCycle(P *Program) (fails []string) {
+	fs, e := need(P, "cycleEntry", "cycleA", "cycleB", "cycleC")
+	if e != nil {
+		return e
+	}
+	lc := NewLockCtx(P, fs)
+	var store ssa.Instruction
+	eachInstr(fs[3], func(in ssa.Instruction) {
+		if st, ok := in.(*ssa.Store); ok {
+			store = st
+		}
+	})
+	if store == nil {
+		return []string{"cycleC: store not found"}
+	}
+	held := lc.At(store)
+	ok := false
+	for p, m := range held {
+		if strings.HasSuffix(p, ".mu") && m == 'W' {
+			ok = true
+		}
+	}
+	if !ok {
+		fails = append(fails, fmt.Sprintf("the lock held by the only external entry of a three-function cycle is not seen inside it (held: %v)", held))
 	}
 	return
 }
